@@ -19,7 +19,13 @@ def step (st : St) (line : String) : St × String :=
   | "tok" :: rest => (st, handleTok st.spec rest)
   | "reset" :: _ => ({ st with db := [] }, "-")
   | "open" :: _ => (st, "open e=0")
-  | "get" :: rest => (st, handleGet st.spec st.db rest)
+  | "get" :: rest =>
+    match handleGetRaw st.db rest with
+    | some o => (st, o)
+    | none => (st, handleGet st.spec st.db rest)
+  | "put" :: rest =>
+    let (db', o) := handlePut st.db rest
+    ({ st with db := db' }, o)
   | "eof" :: rest => (st, handleEof st.spec st.db rest)
   | "spf" :: rest => (st, handleSpf st.db rest)
   | "bof" :: rest => (st, handleBof st.spec st.db rest)
